@@ -48,6 +48,8 @@
 (*                            server ends the stream, e.g. its timeout)    *)
 (*   k = "gone"               the watch is answered 410 Gone: re-list      *)
 (*   k = "bookmark"           BOOKMARK event at a fresh resourceVersion    *)
+(*   k = "listfail"           the pending LIST request is answered with a  *)
+(*                            server error: the client asks again later    *)
 (***************************************************************************)
 EXTENDS Integers, Sequences, FiniteSets
 
@@ -142,8 +144,12 @@ C20_KeptWhileRelisting(steps, held, i) ==
      /\ OfferedSet(held, i) = Expected(steps, LastObserved(steps, i))
      /\ Cardinality(OfferedSet(held, i)) = Len(held[i])
 
+\* "for every sequence of watch events including reconnects and re-lists": the client keeps following the API server -- it asks for
+\* the LIST again after a failed one (R.gaveUp: it never did within the harness's patience, at the step the record ends with)
+C20_KeepsFollowing(R, i) == ~(R.gaveUp /\ i = Len(R.offered))
+
 ClauseNames(p) ==
-  CASE p = "C20" -> {"C20_OffersExactlyReady", "C20_CurrentAddressPort", "C20_CurrentMetadata",
+  CASE p = "C20" -> {"C20_KeepsFollowing", "C20_OffersExactlyReady", "C20_CurrentAddressPort", "C20_CurrentMetadata",
                      "C20_DeletedNotOffered", "C20_UnconvertibleNotOffered", "C20_KeptWhileRelisting"}
     [] OTHER -> {}
 
@@ -155,4 +161,5 @@ Clause(n, R, i) ==
     [] n = "C20_DeletedNotOffered"       -> C20_DeletedNotOffered(R.steps, R.offered, i)
     [] n = "C20_UnconvertibleNotOffered" -> C20_UnconvertibleNotOffered(R.steps, R.offered, i)
     [] n = "C20_KeptWhileRelisting"      -> C20_KeptWhileRelisting(R.steps, R.held, i)
+    [] n = "C20_KeepsFollowing"          -> C20_KeepsFollowing(R, i)
 =============================================================================
